@@ -18,7 +18,7 @@ import (
 // Op is one access of a critical section.
 type Op struct {
 	V int    `json:"v"`           // shared variable 0 (x), 1 (y) or 2 (t, function-valued: [1 |-> 100, 2 |-> 200])
-	K string `json:"k"`           // "R" | "W" | "A" (await FALSE on the first attempt of the section: the section aborts here once)
+	K string `json:"k"`           // "R" | "W" | "A" (await FALSE on the first attempt of the section: the section aborts here once) | "F" (an assertion fails here: the run of this context ends with that error)
 	F string `json:"f,omitempty"` // value written: "tag" unique value | "inc"/"dec" last value read of the location +-1 | "copy" last value read of the other variable
 	I int    `json:"i,omitempty"` // V = t only: 0 = the whole variable, k>0 = element t[k] accessed through Index()
 }
@@ -83,6 +83,8 @@ func (o Op) String() string {
 	switch o.K {
 	case "A":
 		return "await-false-once"
+	case "F":
+		return "assertion-fails"
 	case "R":
 		return "R" + n
 	}
@@ -117,6 +119,19 @@ func xfer(a, b int) Section {
 
 // shapes over the function-valued variable t (indexed access through Index(), as raftkvs does with nextIndex[i][j])
 var awaitFalse = Op{K: "A"}
+var assertFails = Op{K: "F"}
+
+// fatalAt returns the index of the first section of the script that ends the run by an assertion failure (-1: none).
+func fatalAt(sc Script) int {
+	for i, sec := range sc {
+		for _, o := range sec {
+			if o.K == "F" {
+				return i
+			}
+		}
+	}
+	return -1
+}
 
 func iw(k int) Section   { return Section{{V: tVar, I: k, K: "W", F: "tag"}} } // t[k] := v
 func ir(k int) Section   { return Section{{V: tVar, I: k, K: "R"}} }           // read t[k]
@@ -139,7 +154,7 @@ func usesVars(scripts []Script) int {
 	for _, s := range scripts {
 		for _, sec := range s {
 			for _, o := range sec {
-				if o.K != "A" && o.V+1 > n {
+				if o.K != "A" && o.K != "F" && o.V+1 > n {
 					n = o.V + 1
 				}
 			}
@@ -183,6 +198,9 @@ func makeArchetype(name string, idx0 int, script Script, attempt func() int) dis
 						return distsys.ErrCriticalSectionAborted // await FALSE
 					}
 					continue
+				}
+				if o.K == "F" {
+					return fmt.Errorf("%w: assertion of the harness, while the section holds its shared variables", distsys.ErrAssertionFailed)
 				}
 				h, err := iface.RequireArchetypeResourceRef(name + "." + varNames[o.V])
 				if err != nil {
